@@ -872,3 +872,55 @@ def rf10i(run):
     if n < 2:
         raise F.AnalysisBroken('block-argument branches found: %d' % n)
     return n
+
+
+def rf10j(run):
+    rule = 'RF10j'
+    run.rule(rule, 'machinize_call: an argument narrower than 64 bits is extended into a temporary (ext_insn) and the argument move '
+                   'reads that temporary. Where the move is inserted *after* the anchor prev_call_insn, instructions inserted later '
+                   'after the same anchor end up in front of it, so the insertion of ext_insn must follow the insertion of the move on '
+                   'every path (the extension then precedes the move in the instruction stream)')
+    gen = run.tu('gen')
+    f = gen.func('machinize_call')
+    run.functions_analysed.add(('gen', f.name))
+    cfg = f.cfg
+    ext_ins = [x for x in f.walk() if x['k'] == 'CallExpr' and x.get('callee') in ('gen_add_insn_after', 'MIR_insert_insn_after')
+               and F.src(F.strip(F.call_args(x)[-1])) == 'ext_insn' and 'prev_call_insn' in F.src(F.call_args(x)[-2])]
+    if not ext_ins:
+        raise F.AnalysisBroken('machinize_call: the insertion of ext_insn after prev_call_insn was not found')
+    n = 0
+    for e in ext_ins:
+        comp = None
+        for a in f.ancestors(e):
+            if a['k'] == 'CompoundStmt':
+                comp = a
+                break
+        moves = [y for y in F.walk(comp) if y['k'] == 'CallExpr' and y.get('callee') in ('gen_add_insn_after', 'MIR_insert_insn_after')
+                 and F.src(F.strip(F.call_args(y)[-1])) == 'new_insn' and 'prev_call_insn' in F.src(F.call_args(y)[-2])]
+        if not moves:
+            continue  # the move of this arm goes in front of the call insn: order does not matter
+        eb = cfg.block_of(e)
+        for mv in moves:
+            mb = cfg.block_of(mv)
+            n += 1
+            if mb == eb:
+                B = cfg.blocks[eb]
+                pe = min(i for i, el in enumerate(B.elems) if any(z is e for z in F.walk(el)))
+                pm = min(i for i, el in enumerate(B.elems) if any(z is mv for z in F.walk(el)))
+                ok = pm < pe
+            else:
+                # order inside one iteration of the argument loop: cut the back edges
+                idom = cfg.dominators()
+                hdrs = {H.id for H in cfg.blocks.values() if any(cfg.dominates(H.id, q, idom) for q in (H.preds or []) if q != H.id)}
+                fwd_m = cfg.reachable_from(mb, avoid=lambda q: q in hdrs and q != mb)
+                fwd_e = cfg.reachable_from(eb, avoid=lambda q: q in hdrs and q != eb)
+                ok = eb in fwd_m and mb not in fwd_e
+            run.ob(rule, ('order', mv['l'], e['l']), ok, {'move inserted at line': mv['l'], 'extension inserted at line': e['l'], 'extension inserted later': ok})
+            if not ok:
+                run.violation(rule, f, 'insertion order of the extension',
+                              'ext_insn is inserted after prev_call_insn (line %d) before the argument store that reads its result is '
+                              'inserted after the same anchor (line %d): the store ends up in front of the extension and writes the '
+                              'outgoing stack slot from a temporary that is not yet defined' % (e['l'], mv['l']), line=e['l'])
+    if n < 1:
+        raise F.AnalysisBroken('machinize_call: no arm inserts both the move and the extension after prev_call_insn')
+    return n
